@@ -409,7 +409,7 @@ def edit_families(prefix, fmt='', ops=frozenset({'IMPLIES', 'OR', 'EXCLUDES', 'A
     axes = {'ctc'} | ({'abs'} if abstract else set())
     walk = dict(N=6, MaxKids=3, MinHi=0, AllowStar=star, Axes=axes | ({'attr'} if attrs else set()), AttrNames=['a1'],
                 AttrVals=attrs or set(), MaxCtc=2, CtcDepth=1, CtcBinOps=set(ops), CtcMinFeatures=3, CtcGrow=1,
-                MaxEdits=3, EditKinds=kinds | ({'attrval'} if attrs else set()), Fmt=fmt)
+                MaxEdits=3, EditKinds=kinds | ({'attrval', 'attrname', 'rmattr'} if attrs else set()), Fmt=fmt)
     one = dict(N=3, MaxKids=2, MinHi=0, AllowStar=False, Axes={'ctc'}, MaxCtc=1, CtcDepth=1, CtcBinOps=set(ops), CtcMinFeatures=2,
                MaxEdits=1, EditKinds=kinds - {'abs'}, Fmt=fmt)
     return {
